@@ -12,6 +12,15 @@ NOTE_COMMON = ('Trusted base: CPython, Hypothesis 6.168 as case generator, the h
 
 # id -> (design section, technique, level text, level note)
 CLAIMS = {
+    'C02': ('3/C02', 'Hypothesis-generated token assignment programs over whole-store token selection; splice oracle computed from the pre-state token texts',
+            'Exploration: value / raw_text / indent assignments to any token (trivia and zero-width marks included) of generated ledgers; identity, order and text of every '
+            'other token, the printed file and every enclosing model are compared with the single-span splice. Right level: a pure per-token relation, cheap to sample densely.',
+            NOTE_COMMON),
+    'C16': ('3/C16', 'generated include graphs and body programs on a real temporary directory tree; byte/mtime/inode snapshot oracle with harness-side exact re-computation of expected contents',
+            'Exploration: include graphs (globs, cycles, diamonds, sub-directories), LF/CRLF/mixed contents, six root spellings, edit/remove/add/raise bodies, edit_file and '
+            'edit_file_recursive; file-system state compared with an independently computed expectation. Right level: the editor is small and its failures depend on path '
+            'spelling and content bytes, both generated.',
+            NOTE_COMMON + ' Runs in a private temporary directory that is removed afterwards.'),
     'C19': ('3/C19', 'fault-style generation: catalogue of invalid calls (attached nodes at every batch position, bad indexes/keys/sizes/raw texts/operands, foreign tokens) after a random valid prefix; before/after snapshot equality oracle',
             'Exploration: thousands of (document, prefix, invalid call) triples over every node-accepting mutator; whenever the call raises, text, token identities, '
             'tree structure, claimed flags and token values of both documents must equal the snapshot taken before; an attached node must always be refused. Right '
